@@ -11,6 +11,10 @@
 #include "tb.h"
 #include "tn.h"
 void trap(Trap t) { fprintf(stderr, "trap %d\n", (int)t); abort(); }
+/* what the embedder supplies for the modules' table and global imports */
+static wasmTable hosttab[3]; static U32 hostbias = 0;        /* one table per module: each writes its own function into slot 1 */
+#define RESOLVER(k) static void* resolve##k(const char* module, const char* name) { (void)module; if (!strcmp(name, "tab")) return &hosttab[k]; if (!strcmp(name, "bias")) return &hostbias; return NULL; }
+RESOLVER(0) RESOLVER(1) RESOLVER(2)
 U32 wasi__threadX2Dspawn(void*, U32);
 static taInstance A; static tbInstance B; static tnInstance N;
 /* the WASI implementation asks for the memory of whatever instance it is handed: root or child of any module */
@@ -46,7 +50,8 @@ int main(int argc, char** argv) {
     const char* order = argc > 2 ? argv[2] : "naabbnab";
     char* noargs[1] = {NULL};
     wasiInit(0, noargs, noargs);
-    taInstantiate(&A, NULL); tbInstantiate(&B, NULL); tnInstantiate(&N, NULL);
+    wasmTableAllocate(&hosttab[0], 4, 4); wasmTableAllocate(&hosttab[1], 4, 4); wasmTableAllocate(&hosttab[2], 4, 4);
+    taInstantiate(&A, resolve0); tbInstantiate(&B, resolve1); tnInstantiate(&N, resolve2);
     for (i = 0; order[i]; i++) { do_spawn(order[i] == 'a' ? 1 : order[i] == 'b' ? 2 : 3, (U32)(1000 + i)); usleep(3000); }
     pthread_barrier_init(&bar, NULL, (unsigned)K);
     for (i = 0; i < K; i++) pthread_create(&th[i], NULL, spawner, (void*)(long)i);
